@@ -72,6 +72,7 @@ type call struct {
 	refusedBefore bool  // error mode, NFS4ERR_TOO_MANY_OPS: the same request was refused on this slot and sequence ID before
 	afterRefused  *call // exec and error mode: the request that was refused with NFS4ERR_TOO_MANY_OPS on this slot and sequence ID before
 	everParked    bool  // written under world.mu
+	oversized     bool  // more operations than the session allows, under a sequence ID that is not the slot's next one
 
 	// Written by the goroutines of the call, under world.mu.
 	plan        map[string]bool
